@@ -207,6 +207,37 @@ def mk_adapter(a, label=None):
     return ada
 
 
+def shipped_component(ctx, idx, c):
+    """the same role played by a component shipped with finam: CallbackGenerator (no inputs),
+    DebugConsumer (no outputs) or CallbackComponent (both); fixed step = first entry of `steps`"""
+    start, step = T0 + H(c["start"]), H(c["steps"][0])
+    name = c["name"]
+
+    def info():
+        return fm.Info(time=None, grid=fm.NoGrid(), units="")
+
+    def val(j, t):
+        return float(idx * 1_000_000 + j * 10_000) + hrs(t)
+
+    if c["nin"] == 0:
+        comp = fm.components.CallbackGenerator({f"out{j}": ((lambda t, j=j: val(j, t)), info()) for j in range(c["nout"])}, start, step)
+    elif c["nout"] == 0:
+        comp = fm.components.DebugConsumer({f"in{i}": fm.Info(time=None, grid=fm.NoGrid(), units=None) for i in range(c["nin"])}, start, step)
+    else:
+        def cb(inputs, t):
+            if inputs is not None:
+                for k, d in inputs.items():
+                    ctx.received.setdefault((name, k), []).append((hrs(t), _scalar(d), str(d.units)))
+            return {f"out{j}": val(j, t) for j in range(c["nout"])}
+
+        comp = fm.components.CallbackComponent({f"in{i}": fm.Info(time=None, grid=fm.NoGrid(), units=None) for i in range(c["nin"])},
+                                               {f"out{j}": info() for j in range(c["nout"])}, cb, start, step, initial_pull=c.get("initial_pull", True))
+    comp.with_name(name)
+    comp.calls = []
+    comp.spec = c
+    return comp
+
+
 class Built:
     def __init__(self):
         self.ctx = None
@@ -227,8 +258,11 @@ def build(spec, cap=None, memory=None, location="spill"):
     b.ctx = Ctx(cap if cap is not None else 4 * n_upd + 50)
     objs = []
     for idx, c in enumerate(spec["comps"]):
-        cls = Node if c["type"] == "time" else PullThrough
-        o = cls(b.ctx, idx, c)
+        if c["type"] == "time" and c.get("impl") == "shipped":
+            o = shipped_component(b.ctx, idx, c)
+        else:
+            cls = Node if c["type"] == "time" else PullThrough
+            o = cls(b.ctx, idx, c)
         b.comps[c["name"]] = o
         objs.append(o)
     order = spec.get("order") or list(range(len(objs)))
